@@ -348,7 +348,10 @@ Theorem push_line_caches fs s p hdr ihdr l cs ts pay :
   exists fs' s', push_line s ts pay fs = (fs', Ok s')
     /\ RepS fs' s' p hdr ihdr (l ++ [(ts, pay)]) cs
     /\ (forall g, ~ In g (all_files s) -> fs_get fs' g = fs_get fs g)
-    /\ all_files s' = all_files s /\ s_cb s' = s_cb s.
+    /\ all_files s' = all_files s /\ s_cb s' = s_cb s
+    /\ of_name (d_file (s_data s')) = of_name (d_file (s_data s))
+    /\ of_name (ix_file (d_index (s_data s'))) = of_name (ix_file (d_index (s_data s)))
+    /\ map cache_files (s_down s') = map cache_files (s_down s).
 Proof.
   intros [RD W RR RC ND] A.
   destruct (accepted_line p l ts pay W A) as (LO & W' & Hpay & Hts & HL).
@@ -377,7 +380,7 @@ Proof.
   erewrite mbind_ok by exact EP.
   assert (FM : flat_map cache_files down' = flat_map cache_files (s_down s)).
   { rewrite !flat_map_concat_map, NC. reflexivity. }
-  do 2 eexists. split; [reflexivity|]. split; [|split; [|split; [|reflexivity]]].
+  do 2 eexists. split; [reflexivity|]. split; [|split; [|split; [|split; [reflexivity|split; [exact N1|split; [exact N2|exact NC]]]]]].
   - constructor; cbn [s_data s_down s_range].
     + cbn zeta in RD'. rewrite <- encode_snoc, <- full_after_snoc in RD'. rewrite last_opt_snoc.
       apply (RepD_frame fs1 fs2); [exact RD'| |]; apply OthC; intros Q.
@@ -538,7 +541,7 @@ Proof.
   induction xs as [|x t IH]; intros fs s l R W.
   - exists fs, s. rewrite app_nil_r. split; [reflexivity|]. split; [exact R|]. split; [intros; reflexivity|split; reflexivity].
   - pose proof (wf_accepts p l x t W) as A.
-    destruct (push_line_caches fs s p hdr ihdr l cs (fst x) (snd x) R A) as (fs1 & s1 & E & R1 & Oth & NF & CB).
+    destruct (push_line_caches fs s p hdr ihdr l cs (fst x) (snd x) R A) as (fs1 & s1 & E & R1 & Oth & NF & CB & _).
     replace ((fst x, snd x)) with x in R1 by (destruct x; reflexivity).
     replace (l ++ x :: t) with ((l ++ [x]) ++ t) in * by (rewrite <- app_assoc; reflexivity).
     destruct (IH fs1 s1 (l ++ [x]) R1 W) as (fs2 & s2 & E2 & R2 & Oth2 & NF2 & CB2).
@@ -689,3 +692,4 @@ Proof.
   - symmetry. apply N.leb_le. assert (length l / fst c2 <= length l / fst c) by (apply Nat.div_le_compat_l; destruct OK as [Hb _]; lia). lia.
 Qed.
 End OrderCheck.
+
